@@ -44,10 +44,20 @@ def run(ctx):
     reqs = []
     for n, (k, idxs) in enumerate(groups.items()):
         r = dict(i=n, vals=json.loads(k), agglists=[cases[i]["aggs"] for i in idxs])
-        if n % 3 == 1:
+        if n % 4 == 1:
             r["pre"] = [dict(op="as", name="m")]
             r["agglists"] = [via_mark(a) for a in r["agglists"]]
-        elif n % 3 == 2:
+        elif n % 4 == 3:
+            # the first aggregation of the step reads the current element, the others read the same element through
+            # the mark, on a backend that honours the do-not-load hint (harness/trav.NoLoadGraph): what one
+            # aggregation of a step needs must not depend on the aggregations listed before it
+            # the mark is set one step earlier: every vertex gets a self loop and out() walks it, so the rows (and the
+            # judgement) stay the same while the marked element and the current element belong to different steps
+            r["pre"] = [dict(op="as", name="m"), dict(op="out", labels=["selfloop"])]
+            r["agglists"] = [a[:1] + via_mark(a[1:]) for a in r["agglists"]]
+            r["noload"] = True
+            r["selfloops"] = True
+        elif n % 4 == 2:
             # the rows reach aggregate() WITHOUT a current element (outNull over a label no edge has), the values
             # are read through the mark: still one row per value, so the judgement is again the same
             r["pre"] = [dict(op="as", name="m"), dict(op="outNull", labels=["nosuchlabel"])]
